@@ -48,7 +48,7 @@ func serverName(s string) string { return s + ".example.org" }
 
 // pseudo-ID rooms: the abstract servers s1 / s2 stand for the keys of the sender / the target user
 func pseudoKey(s string) ed25519.PrivateKey { return keyFromTag("pseudo-" + s) }
-func pseudoID(s string) string             { return string(spec.SenderIDFromPseudoIDKey(pseudoKey(s))) }
+func pseudoID(s string) string              { return string(spec.SenderIDFromPseudoIDKey(pseudoKey(s))) }
 
 // world is the concrete realisation of one scenario.
 type world struct {
@@ -237,7 +237,7 @@ func (w *world) signaturesFor(impl gmsl.IRoomVersion, evJSON []byte, s, state st
 		return []sigEntry{{name, id1, signatureOf(impl, other, name, id1, k1)}}
 	case "wrongkey":
 		current(id1, k1)
-		return []sigEntry{good(id1, keyFromTag(s + "/intruder"))}
+		return []sigEntry{good(id1, keyFromTag(s+"/intruder"))}
 	case "unknownkey":
 		current(id1, k1)
 		return []sigEntry{good("ed25519:k9", keyFromTag(s+"/k9"))}
